@@ -259,6 +259,17 @@ def run_case(desc):
         # sub-Manifests are never written signed
         written = set(fsnap.changed_paths(fsnap.diff(
             snap_before, fsnap.snapshot(root))))
+        # whatever happened (also a failed signature): nothing but Manifest
+        # files may have been created or changed
+        alien = sorted(p for p in written
+                       if not os.path.basename(p).startswith('Manifest')
+                       and 'manifest' not in os.path.basename(p)
+                       and os.path.basename(p) != 'second-save-file')
+        if alien:
+            return violation(
+                f'{what} (outcome {oc!r}) created or changed non-Manifest '
+                f'paths {alien}', sig='non-manifest-touched',
+                classes=classes)
         for mf in desc['manifests']:
             if mf['p'] == 'Manifest':
                 continue
